@@ -362,6 +362,43 @@ def run(chk, prog):
                    'thousand parentheses, braces or blocks) overflows the stack and aborts the process instead of being '
                    'rejected with a compiler error' % name, members[0].loc(0))
     chk.floor(RN, 'call-graph cycles among the text-consuming functions', ntext, 3)
+    # (f) the AST walkers descend: what a recursive call is handed is a part of what the caller was handed, never a value
+    #     fetched from a table (seed C06-7: a CONST expanded through the map of constants, a ring of two recurses for ever)
+    MAP_LOOKUPS = ('HashMap::get', 'HashMap::get_mut', 'HashMap::remove', 'HashMap::entry', 'BTreeMap::get', 'BTreeMap::get_mut',
+                   'BTreeMap::remove', 'Map::get', 'Map::get_mut', '<HashMap as Index>::index', '<BTreeMap as Index>::index',
+                   'HashMap::get_key_value', 'HashMap::values', 'HashMap::iter', 'HashMap::values_mut', 'HashMap::iter_mut')
+    nwalk, ncalls = 0, 0
+    for comp in sccs:
+        members = [prog.fns[x] for x in comp if x in prog.fns]
+        if any('::parser::' in m.p or '::inline::' in m.p for m in members):
+            continue
+        if any(calls_short(m, ('nesting::enter', 'nesting::enter_emit', 'nesting::enter_counted')) for m in members):
+            continue
+        nwalk += 1
+        roots_ = {m.p for m in members}
+        for m in members:
+            for g_ in prog.with_closures(m):
+                for bb, t in g_.calls():
+                    h_ = prog.fns.get(callee(t))
+                    if h_ is None or prog.root_fn(h_).p not in roots_:
+                        continue
+                    ncalls += 1
+                    for ai, a in enumerate(t['args']):
+                        if a.get('k') not in ('copy', 'move'):
+                            continue
+                        at = tr.full_lineage(g_, a) if hasattr(tr, 'full_lineage') else tr.prov(g_, a)
+                        look = sorted(x[4:] for x in at if x.startswith('via:') and x[4:] in MAP_LOOKUPS)
+                        if look:
+                            chk.fail(RN, chk.key(RN, 'walker-descends', m.short, prog.root_fn(h_).short, 'arg%d' % ai),
+                                     '%s calls %s (a cycle of the call graph with no depth bound) on a value it looked up in a '
+                                     'table (%s) instead of on a part of its own argument: the recursion no longer follows the '
+                                     'syntax tree, whose depth the parser bounds, but the table - definitions that refer to '
+                                     'each other in a ring make it recurse until the stack overflows and the process aborts'
+                                     % (m.short, prog.root_fn(h_).short, ', '.join(look)), g_.loc(bb))
+    chk.floor(RN, 'unbounded AST-walker cycles examined', nwalk, 25)
+    chk.floor(RN, 'recursive calls of AST walkers examined', ncalls, 100)
+    if not [f_ for f_ in chk.findings if 'walker-descends' in f_['key']]:
+        chk.ok(RN, chk.key(RN, 'walker-descends'), 'every recursive call of an AST walker is handed a part of the caller\'s own argument')
     pc, ps_ = prog.fn('choice::parse_choice'), prog.fn('parser::parse_statement')
     for nm, f_ in (('choice::parse_choice', pc), ('parser::parse_statement', ps_)):
         if chk.anchor(RN, nm, f_):
